@@ -597,6 +597,29 @@ func init() {
 		return *cell
 	})
 	reg("(*database/sql.Rows).Scan", func(e *Exec, c *frame, fn *ssa.Function, a []Value) Value { return Iface{} })
+	// ----- database/sql transactions: counted (ghost counters sql.begin / sql.commit / sql.rollback, readable through
+	// vsymGhostGet); the ghost flags sql.failCommit / sql.failRollback make the call return an error -----
+	reg("(*database/sql.DB).BeginTx", func(e *Exec, c *frame, fn *ssa.Function, a []Value) Value {
+		e.ghost["sql.begin"]++
+		cell := new(Value)
+		*cell = zero(fn.Signature.Results().At(0).Type().Underlying().(*types.Pointer).Elem())
+		return Tuple{cell, Iface{}}
+	})
+	reg("(*database/sql.Tx).Commit", func(e *Exec, c *frame, fn *ssa.Function, a []Value) Value {
+		if e.ghost["sql.failCommit"] != 0 {
+			e.ghost["sql.commitFailed"]++
+			return e.newErrorString(Str{s: "verif: commit failed"})
+		}
+		e.ghost["sql.commit"]++
+		return Iface{}
+	})
+	reg("(*database/sql.Tx).Rollback", func(e *Exec, c *frame, fn *ssa.Function, a []Value) Value {
+		e.ghost["sql.rollback"]++
+		if e.ghost["sql.failRollback"] != 0 {
+			return e.newErrorString(Str{s: "verif: rollback failed"})
+		}
+		return Iface{}
+	})
 
 	// ----- crypto/sha256 as an injective stub: the "digest" is the written data itself (collision freedom assumed) -----
 	reg("(*crypto/sha256.digest).Write", func(e *Exec, c *frame, fn *ssa.Function, a []Value) Value {
